@@ -718,3 +718,191 @@ class svs_stop(Contract):
         return {'stops_and_wakes_the_timer_task': self.d['running'] is False and ev.sets == 1,
                 'handler_detached_from_the_sync_prefix': g['app'].log == [('detach_handler', (self.d['base_prefix'],))],
                 'task_forgotten': self.d['timer_task'] is None}
+
+
+# ----------------------------------------------------------------------------- express_sync_interest: the emitted vector (C18)
+class OutEntries:
+    """the entries list of the vector being built: any number of (node id, sequence number) pairs in insertion order.  Ghost:
+    idx[k] = the position at which node id k was appended last (maintained by append itself; it is the Skolem witness of
+    'every local entry is carried')"""
+
+    def __init__(self, run, fresh=True):
+        self.run = run
+        if fresh:
+            self.n = run.fresh_int('n_out')
+            self.ids, self.seqs, self.idx = run.fresh_row('out_ids'), run.fresh_row('out_seqs'), run.fresh_row('out_idx')
+        else:
+            self.n = 0
+            self.ids = self.seqs = self.idx = z3.K(INT, z3.IntVal(0))
+        self.bad = []               # appended things that are not (node id, integer) entries
+
+    def append(self, it, cur):
+        d = getattr(cur, 'd', None)
+        nid, seq = (d.get('node_id'), d.get('seq_no')) if isinstance(d, dict) else (None, None)
+        if not isinstance(nid, NameTok) or seq is None or isinstance(seq, OptInt):
+            self.bad.append(cur)
+            return None
+        n = zint(self.n)
+        self.ids = z3.Store(self.ids, n, zint(nid.kid))
+        self.seqs = z3.Store(self.seqs, n, zint(seq))
+        self.idx = z3.Store(self.idx, zint(nid.kid), n)
+        self.n = simp(n + 1)
+        return None
+
+    def getattr_(self, it, name, node):
+        if name == 'append':
+            return _M(lambda it_, v: self.append(it_, v))
+        raise Unsupported(f'list.{name} on the entries being built')
+
+
+class PrefixTok:
+    """the sync prefix (a list of components): only `prefix + [component]` is used"""
+
+    def binop_(self, it, op, other, node):
+        import ast as _ast
+        if isinstance(op, _ast.Add) and isinstance(other, list):
+            return _Holder(prefix=self, tail=list(other))
+        raise Unsupported('operation on the sync prefix')
+
+
+class AppX:
+    def __init__(self):
+        self.calls = []
+
+    def getattr_(self, it, name, node):
+        if name == 'express':
+            return _M(lambda it_, *a, **kw: self.calls.append((a, kw)))
+        raise Unsupported(f'app.{name}')
+
+
+def _entries_of(sv_pkt):
+    val = sv_pkt.d.get('val') if hasattr(sv_pkt, 'd') else None
+    ent = val.d.get('entries') if val is not None and hasattr(val, 'd') else None
+    return val, ent
+
+
+def _esi_view(ent):
+    """(n, ids, seqs, idx) of the entries built so far; a plain list is acceptable only while it is empty"""
+    if isinstance(ent, OutEntries):
+        return ent
+    if isinstance(ent, list) and not ent:
+        return OutEntries(None, fresh=False)
+    return None
+
+
+def _esi_inv(it, env, g):
+    val, ent = _entries_of(env['sv_pkt'])
+    E = _esi_view(ent)
+    if E is None or E.bad:
+        return {'entries_are_node_id_and_sequence_number_pairs': False}
+    L, V = g['map'], g['visited']
+    k, j = z3.Int('k!esi'), z3.Int('j!esi')
+    n = zint(E.n)
+    return {'entries_are_node_id_and_sequence_number_pairs': True,
+            'count_nonnegative': n >= 0,
+            'every_visited_local_entry_is_carried_with_its_sequence_number': z3.ForAll([k], z3.Implies(z3.Select(V, k), z3.And(
+                z3.Select(E.idx, k) >= 0, z3.Select(E.idx, k) < n, z3.Select(E.ids, z3.Select(E.idx, k)) == k,
+                z3.Select(E.seqs, z3.Select(E.idx, k)) == z3.Select(L.val, k)))),
+            'every_carried_entry_is_a_visited_local_entry_carried_once': z3.ForAll([j], z3.Implies(z3.And(j >= 0, j < n), z3.And(
+                z3.Select(V, z3.Select(E.ids, j)), z3.Select(E.idx, z3.Select(E.ids, j)) == j)))}
+
+
+def _esi_havoc(it, env, g):
+    sv = env['sv_pkt']
+    val, ent = _entries_of(sv)
+    if val is None or not isinstance(ent, (list, OutEntries)):
+        raise Unsupported('the vector under construction is not a wrapper with an entries list')
+    val.d['entries'] = OutEntries(it.run)
+    return sv
+
+
+@contract
+class encode_sync_vector(Contract):
+    """call-site summary inside express_sync_interest: the wire of the vector object (TlvModel.encode is verified generically
+    and for RepeatedField / ModelField / NameField / UintField under C08); here the wire is a token that remembers the object"""
+    fn = tm.TlvModel.encode
+    assumed = True
+
+    def use_contract_at(c, it, args, kwargs):
+        return 'svs.esi' in it.run.ghost and len(args) == 1 and not kwargs
+
+    def result(c, cx, **p):
+        obj = list(p.values())[0]
+        return Opaque('wire_of', 'encoded state vector', dict(obj=obj))
+
+
+@contract
+class name_from_bytes_for_ids(Contract):
+    """call-site summary: decoding a dict key (the encoding of a node id) gives back the node id = its ghost identity (the
+    inverse of name_to_bytes_for_ids; Name.encode / Name.decode round trip: C09)"""
+    fn = Name.from_bytes
+    assumed = True
+
+    def use_contract_at(c, it, args, kwargs):
+        return 'svs.esi' in it.run.ghost and isinstance(args[0], KeyTok)
+
+    def result(c, cx, buf):
+        return NameTok(buf.kid)
+
+
+@contract
+class express_sync_interest(Contract):
+    fn = sync.SvsInst.express_sync_interest
+    props = ('C18',)
+    doc = ('express_sync_interest, local vector with ANY number of entries: exactly one Interest is expressed, without waiting for a '
+           'reply, signed with the configured Interest signer, named <sync prefix>/<encoded vector>, and the vector carries EVERY '
+           'entry of the local vector exactly once with its current sequence number and nothing else (the full vector); the local '
+           'vector itself is not changed')
+    raises = {}
+    loops = {1: LoopSpec(_esi_inv, havoc={'sv_pkt': _esi_havoc, 'cur': lambda it, env, g: None,
+                                          'lsv_id': lambda it, env, g: None, 'lsv_seq': lambda it, env, g: None})}
+
+    def use_contract_at(c, it, args, kwargs):
+        return False            # inside on_timer the restricted summary above counts the emission
+
+    def setup(self, cx):
+        run = cx.run
+        inst = mk_inst(cx)
+        inst.d['base_prefix'] = PrefixTok()
+        inst.d['int_signer'] = Opaque('signer', 'interest signer')
+        appx = AppX()
+        inst.d['ndn_app'] = appx
+        run.ghost['svs.esi'] = dict(app=appx, local0=inst.d['local_sv'].sym.copy())
+        return dict(self=inst)
+
+    def post(c, cx, result, self):
+        from ndn import appv2 as _appv2
+        g = cx.run.ghost['svs.esi']
+        calls = g['app'].calls
+        L = self.d['local_sv'].sym
+        out = {'exactly_one_interest_expressed': len(calls) == 1,
+               'local_vector_unchanged': L.same_as(g['local0'])}
+        if len(calls) != 1:
+            return out
+        a, kw = calls[0]
+        name = a[0] if a else kw.get('name')
+        validator = a[1] if len(a) > 1 else kw.get('validator')
+        out['fire_and_forget_with_the_interest_signer'] = kw.get('no_response') is True and kw.get('signer') is self.d['int_signer'] \
+            and validator is _appv2.pass_all
+        ok = isinstance(name, _Holder) and name.prefix is self.d['base_prefix'] and len(name.tail) == 1 and \
+            isinstance(name.tail[0], Opaque) and name.tail[0].typ == 'wire_of'
+        out['named_sync_prefix_plus_one_component_holding_the_encoded_vector'] = ok
+        if not ok:
+            return out
+        sv = name.tail[0].d['obj']
+        val, ent = _entries_of(sv)
+        E = _esi_view(ent)
+        from ndn.app_support.svs import tlv as _tlv
+        shape = getattr(sv, 'cls', None) is _tlv.StateVecWrapper and getattr(val, 'cls', None) is _tlv.StateVec and \
+            E is not None and not E.bad
+        out['a_state_vector_wrapper_holding_a_state_vector'] = shape
+        if not shape:
+            return out
+        k, j = z3.Int('k!esip'), z3.Int('j!esip')
+        n = zint(E.n)
+        out['full_vector_every_local_entry_carried_with_its_sequence_number'] = z3.ForAll([k], z3.Implies(z3.Select(L.dom, k), z3.And(
+            z3.Select(E.idx, k) >= 0, z3.Select(E.idx, k) < n, z3.Select(E.ids, z3.Select(E.idx, k)) == k,
+            z3.Select(E.seqs, z3.Select(E.idx, k)) == z3.Select(L.val, k))))
+        out['nothing_else_and_no_entry_twice'] = z3.ForAll([j], z3.Implies(z3.And(j >= 0, j < n), z3.And(
+            z3.Select(L.dom, z3.Select(E.ids, j)), z3.Select(E.idx, z3.Select(E.ids, j)) == j)))
+        return out
